@@ -298,16 +298,34 @@ def _canon_alpha(t):
     return t.replace("$V", "$A")
 
 
+class _SubstText(ast.NodeTransformer):
+    def __init__(self, text, name):
+        self.text = text.replace(" ", "")
+        self.name = name
+
+    def visit(self, node):
+        if isinstance(node, ast.expr) and norm_text(node).replace(" ", "") == self.text:
+            return ast.Name(id=self.name, ctx=ast.Load())
+        return self.generic_visit(node)
+
+
+def _half_verdict(e, n_text, spec):
+    """True / False / None: the closed integer formula `e` of the size `n_text` equals spec(n)
+    for n = 2..97 (decided by evaluation in the checker's own integer evaluator)."""
+    from ..astutil import int_formula_verdict
+    from ..symexp import clone
+
+    e2 = _SubstText(n_text, "__n__").visit(clone(e))
+    v = int_formula_verdict(e2, "__n__", spec, lo=2, hi=97)
+    return v if v is True or v is None else False
+
+
 def _ceil_half(e, n):
-    t = norm_text(e).replace(" ", "")
-    n = n.replace(" ", "")
-    return t in ("(%s+1)//2" % n, "(1+%s)//2" % n, "%s-%s//2" % (n, n), "-(-%s//2)" % n, "math.ceil(%s/2)" % n, "(%s+1)>>1" % n)
+    return _half_verdict(e, n, lambda k: (k + 1) // 2)
 
 
 def _floor_half(e, n):
-    t = norm_text(e).replace(" ", "")
-    n = n.replace(" ", "")
-    return t in ("%s//2" % n, "%s>>1" % n, "%s-(%s+1)//2" % (n, n), "math.floor(%s/2)" % n, "int(%s/2)" % n)
+    return _half_verdict(e, n, lambda k: k // 2)
 
 
 def multiscale_rule(ctx):
@@ -334,8 +352,11 @@ def multiscale_rule(ctx):
         if itxt != "self._split_dim - 1":
             res.fail(Finding("MS-SPLIT", add.module, add.qualname, node, "the recorded shape excludes the batch dimension, so the split size must be written at index split_dim - 1 (found `%s`)" % itxt))
             continue
-        if pred(val, "%s[%s]" % (var, itxt)):
+        hv = pred(val, "%s[%s]" % (var, itxt))
+        if hv:
             res.ok("add_transform: %s[split_dim-1] = %s" % (var, what))
+        elif hv is None:
+            res.undecide("add_transform %s" % var, "`%s` is not a closed integer formula of the split size" % norm_text(val)[:60])
         else:
             res.fail(Finding("MS-SPLIT", add.module, add.qualname, node, "%s along the split dimension must be %s -- torch.chunk(chunks=2) gives the first chunk ceil(n/2) and the second floor(n/2); found `%s`" % (var, what, norm_text(val))))
     # (d) last stage unsplit in the constructor bookkeeping
